@@ -18,6 +18,7 @@ pub fn from_str_native(mut src: &str) -> Result<(Self, usize), ParseError>
             && sig_normal(B as int, ret.unwrap().0.significand.v()),
 @*/
 {
+        /*@ hide(ipow); hide(parsed_ok); @*/
         /*@ broadcast use round_int_axioms, ubig_zero; @*/
         /*@ let ghost s0 = src@; @*/
         assert!(MIN_RADIX as Word <= B && B <= MAX_RADIX as Word);
@@ -180,7 +181,8 @@ pub fn from_str_native(mut src: &str) -> Result<(Self, usize), ParseError>
                 assert(base as int == (if ghex { 16int } else { B as int }));
                 assert(int_.v() == dval(gi, base as int));
                 assert(digits_ok(gi, base as int));
-                assert(int_digits as int == (if ghex { 4int } else { 1int }) * ndig(gi));
+                assert(ghex ==> int_digits as int == 4 * ndig(gi));
+                assert(!ghex ==> int_digits as int == ndig(gi));
                 lemma_count_le(gi, '_');
                 assert(s2 == body_of(pre, gi, true, sub(s2, dot as int + 1, s2.len() as int)));
             } @*/
@@ -207,24 +209,16 @@ pub fn from_str_native(mut src: &str) -> Result<(Self, usize), ParseError>
             /*@ proof {
                 assert(fract.v() == dval(gf, base as int));
                 assert(digits_ok(gf, base as int));
-                assert(fract_digits as int == (if ghex { 4int } else { 1int }) * ndig(gf));
-                lemma_dval_concat(gi, gf, base as int);
-                if ghex { lemma_ipow_16(ndig(gf) as nat); }
-                assert(ipow(base as int, ndig(gf) as nat) == ipow(B as int, fract_digits as nat));
+                assert(ghex ==> fract_digits as int == 4 * ndig(gf));
+                assert(!ghex ==> fract_digits as int == ndig(gf));
+                lemma_frac_value(B as int, ghex, base as int, gi, gf, int_.v(), fract.v(), fract_digits as int, scale as int);
             } @*/
             ndigits = int_digits + fract_digits;
 
             /*@ let ghost gm = dval(gi + gf, base as int); @*/
             if fract.is_zero() {
-                /*@ proof {
-                    lemma_sv_shift(B as int, int_.v(), scale as int, fract_digits as nat);
-                    assert(int_.v() * ipow(B as int, fract_digits as nat) == gm);
-                } @*/
                 int
             } else {
-                /*@ proof {
-                    lemma_same_value_refl(B as int, gm, scale as int - fract_digits as int);
-                } @*/
                 exponent -= fract_digits as isize;
                 int * UBig::from_word(B).pow(fract_digits) + fract
             }
@@ -282,8 +276,10 @@ pub fn from_str_native(mut src: &str) -> Result<(Self, usize), ParseError>
         /*@ proof {
             assert(ghex == hexflag);
             assert(digits_ok(gi, radix) && digits_ok(gf, radix));
-            assert(ndigits as int == (if ghex { 4int } else { 1int }) * (ndig(gi) + ndig(gf)));
-            assert(same_value(B as int, sv, exponent as int, dval(gi + gf, radix), scale as int - (if ghex { 4int } else { 1int }) * ndig(gf)));
+            assert(ghex ==> ndigits as int == 4 * (ndig(gi) + ndig(gf)));
+            assert(!ghex ==> ndigits as int == ndig(gi) + ndig(gf));
+            let ghost ge: int = if ghex { scale as int - 4 * ndig(gf) } else { scale as int - ndig(gf) };
+            assert(same_value(B as int, sv, exponent as int, dval(gi + gf, radix), ge));
             assert(s2 == body_of(pre, gi, gdot, gf));
             lemma_assemble(s0, gsign, s1, s2, gtail, pre, gi, gdot, gf);
             assert(s0 == ft_text(d));
@@ -297,6 +293,7 @@ pub fn from_str_native(mut src: &str) -> Result<(Self, usize), ParseError>
         /*@ proof {
             lemma_sv_trans(B as int, repr.significand.v(), repr.exponent as int,
                            (if sign == Sign::Negative { -sv } else { sv }), exponent as int, ft_mant(B as int, d), ft_exp(d));
+            lemma_parsed_ok::<B>(s0, repr, ndigits, d);
         } @*/
         Ok((repr, ndigits))
     }
